@@ -124,3 +124,17 @@ def header_text(node):
 def stmt_text(node, limit=60):
     t = ast.unparse(node).split("\n")[0]
     return t if len(t) <= limit else t[:limit - 3] + "..."
+
+
+def freeze_names(kind):
+    """Method names that freeze() of the class installs `frozen` over (read from its AST)."""
+    q = resolve_method(kind, "freeze")
+    if q is None:
+        return set()
+    out = set()
+    for n in ast.walk(function(q)):
+        if isinstance(n, ast.Assign) and isinstance(n.value, ast.Name) and n.value.id == "frozen":
+            for t in n.targets:
+                if isinstance(t, ast.Attribute) and isinstance(t.value, ast.Name) and t.value.id == "self":
+                    out.add(t.attr)
+    return out
